@@ -938,7 +938,26 @@ GRAD_SPECS = [
 ]
 
 
+_COV = "libsigopt/compute/covariance.py"
+KERNEL_SPECS = [
+  ("phi_se", _COV, "SquareExponential", "eval_radial_kernel", ("return", "inline"), []),
+  ("phi_c0", _COV, "C0RadialMatern", "eval_radial_kernel", ("return", "inline"), []),
+  ("phi_c2", _COV, "C2RadialMatern", "eval_radial_kernel", ("return", "inline"), []),
+  ("phi_c4", _COV, "C4RadialMatern", "eval_radial_kernel", ("return", "inline"), []),
+  ("phiR_se", _COV, "SquareExponential", "_covariance", ("return",), ["(r, _) = self._distance_between_points(z, x)"]),
+  ("phiR_c0", _COV, "C0RadialMatern", "_covariance", ("return",), ["(r, _) = self._distance_between_points(z, x)"]),
+  ("phiR_c2", _COV, "C2RadialMatern", "_covariance", ("return",), ["(r, _) = self._distance_between_points(z, x)"]),
+  ("phiR_c4", _COV, "C4RadialMatern", "_covariance", ("return",), ["(r, _) = self._distance_between_points(z, x)"]),
+]
+
+
 def generate_acq(repo, gen_dir):
+  status = _generate_exprs(repo, gen_dir, KERNEL_SPECS, "KernelProfiles", "pyfun_ker", "radial kernel profiles")
+  status.update(_generate_acq_rest(repo, gen_dir))
+  return status
+
+
+def _generate_acq_rest(repo, gen_dir):
   status = _generate_exprs(repo, gen_dir, ACQ_SPECS, "Acq", "pyfun_acq", "acquisition formulas")
   status.update(_generate_exprs(repo, gen_dir, GRAD_SPECS, "AcqGrad", "pyfun_grad", "analytic gradient formulas"))
   status.update(_generate_exprs(repo, gen_dir, SPE_SPECS, "Spe", "pyfun_spe", "Parzen-estimator formulas"))
@@ -973,8 +992,10 @@ def _generate_exprs(repo, gen_dir, specs, fname, prefix, what_text):
       if fn is None:
         raise TranslationError(f"{cls_name}.{meth} not found")
       texts = [ast.unparse(st) for st in ast.walk(fn) if isinstance(st, ast.stmt)]
+      flat = lambda t: t.replace("(", "").replace(")", "").replace(" ", "")   # unparse differs between Python versions on tuple targets
+      flat_texts = {flat(t) for t in texts}
       for g in guard:
-        if g not in texts:
+        if flat(g) not in flat_texts:
           raise TranslationError(f"statement changed or missing in {meth}: {g}")
       if what[0] == "assign":
         hits = [st for st in ast.walk(fn) if isinstance(st, (ast.Assign, ast.AugAssign, ast.AnnAssign))
@@ -992,6 +1013,15 @@ def _generate_exprs(repo, gen_dir, specs, fname, prefix, what_text):
         if len(rets) != 1 or rets[0].value is None:
           raise TranslationError(f"{meth} does not have exactly one return")
         node = rets[0].value
+        if len(what) > 1 and what[1] == "inline":
+          # locals bound once by a plain top-level assignment before the return are substituted (the method's own data flow)
+          mapping = {}
+          for st in fn.body:
+            if isinstance(st, ast.Assign) and len(st.targets) == 1 and isinstance(st.targets[0], ast.Name):
+              if st.targets[0].id in mapping:
+                raise TranslationError(f"{st.targets[0].id} assigned twice in {meth}")
+              mapping[st.targets[0].id] = _subst(st.value, mapping)
+          node = _subst(node, mapping)
         if what[0] == "return_elt":
           if not isinstance(node, ast.Tuple) or len(node.elts) <= what[1]:
             raise TranslationError(f"{meth} does not return a tuple with an element {what[1]}")
